@@ -88,6 +88,51 @@ def _run_one(args):
         return dict(id=hid, crash=f'{type(e).__name__}: {e}\n{traceback.format_exc(limit=20)}')
 
 
+def _child(conn, args):
+    try:
+        conn.send(_run_one(args))
+    finally:
+        conn.close()
+
+
+def _run_pool(tasks, jobs, tier):
+    """One forked process per harness, at most `jobs` at a time, each under a WALL-CLOCK budget: a harness that does not come back
+    (a solver call that ignores its time-out, an endless loop in changed code) is killed and reported as a checker error -- the
+    check ends with a verdict-free exit code instead of hanging.  Results keep the order of `tasks`."""
+    budget = float(os.environ.get('PYVC_HARNESS_WALL_S', 900 if tier == 'quick' else 4 * 3600))
+    ctx = multiprocessing.get_context('fork')
+    pending = list(enumerate(tasks))
+    running = {}         # index -> (process, parent_conn, t0, args)
+    out = {}
+    while pending or running:
+        while pending and len(running) < jobs:
+            i, args = pending.pop(0)
+            parent, child = ctx.Pipe(duplex=False)
+            p = ctx.Process(target=_child, args=(child, args), daemon=True)
+            p.start()
+            child.close()
+            running[i] = (p, parent, time.time(), args)
+        progressed = False
+        for i, (p, conn, t0, args) in list(running.items()):
+            if conn.poll(0):
+                try:
+                    out[i] = conn.recv()
+                except EOFError:
+                    out[i] = dict(id=args[0], crash='the worker process ended without a result')
+                p.join(5)
+                del running[i]; progressed = True
+            elif not p.is_alive():
+                out[i] = dict(id=args[0], crash=f'the worker process died (exit code {p.exitcode})')
+                del running[i]; progressed = True
+            elif time.time() - t0 > budget:
+                p.kill(); p.join(5)
+                out[i] = dict(id=args[0], crash=f'no result within the wall-clock budget of {budget:.0f} s: killed (undecided, not a verdict)')
+                del running[i]; progressed = True
+        if not progressed:
+            time.sleep(0.05)
+    return [out[i] for i in range(len(tasks))]
+
+
 def check_property(prop: str, tier: str, jobs: int, seed: int, only: list[str] | None = None) -> int:
     t0 = time.time()
     reg = load_contracts()
@@ -99,11 +144,7 @@ def check_property(prop: str, tier: str, jobs: int, seed: int, only: list[str] |
     if not hs:
         print(f'checker: no contracts registered for {prop}', file=sys.stderr)
         return 3
-    results = []
-    ctx = multiprocessing.get_context('fork')
-    with cf.ProcessPoolExecutor(max_workers=max(1, min(jobs, len(hs))), mp_context=ctx) as ex:
-        for r in ex.map(_run_one, [(h.id, tier, known_active, seed) for h in hs]):
-            results.append(r)
+    results = _run_pool([(h.id, tier, known_active, seed) for h in hs], max(1, min(jobs, len(hs))), tier)
     global _SENSITIVITY
     _SENSITIVITY = None
     if tier == 'thorough' and not only and os.path.realpath(os.environ.get('PYVC_REPO', '/repo')) == os.path.realpath('/repo') \
